@@ -32,6 +32,9 @@ CHECKS = {
  "C17": (MC, "TLA+ Registry model (GC_Set_Ptr/GC_Mem_Ptr/GC_Rem_Ptr/GC_Sweep compaction/rehash transcribed) checked exhaustively by TLC against the abstract set with root flags (a seeded compaction defect is refuted); programs with arena-placed objects at colliding addresses; registry dump and mem() validated by TLC after every operation (HeapTrace Mode reg)",
          "TLC enumerates all add/remove/sweep histories (every marked subset) over addresses that collide modulo every registry size and wrap around, and checks Exact, NoDup, CountOK, RootsOK, MemOK (live and dead addresses) and MarksClear; on the real collector, objects placed through the type's own Alloc instance at arena addresses colliding modulo 5, 11, 23 and 53 plus ordinary objects go through allocations, deletions, forced and threshold collections, and after every operation TLC compares the dumped registry (ids, root flags, count, marks, duplicates, unknown entries) and mem() of every live object with the specification's set.",
          "registry contents are observed through the #include \"GC.c\" seam (automatic fallback to mem() only); garbage that a sweep leaves for the next cycle is not a violation", "5/C17"),
+ "C07": (MC, "TLA+ ExcMachine (depth/active/obj driven by the five runtime entry points as the macros compose them) checked exhaustively by TLC against the block-structured reference for all lazily executed programs; every model transition rebuilt into a program tree and run with the real macros (interpreter with dynamic nesting, generated C with lexical nesting, forked children); recorded control flow validated by TLC (ExcTrace)",
+         "TLC explores every dynamic path of every try/throw/catch program with 2-3 exception kinds, every filter set (the empty one included), nesting <= 3 and 9-10 statements, and checks that the machine enters exactly the handlers block structure prescribes, binds the thrown object, restores the depth and reports unhandled exceptions; the as-found exception_catch is refuted. All transitions of the model graph become program trees that run with the real macros, together with random trees up to 120 statements deep 6 (calls, throws from handlers, sequences), and TLC validates each recorded run including exit status and diagnostic of uncaught exceptions.",
+         "three builtin exception objects stand for 'several kinds'; programs stay below the runtime's 2048-block nesting limit", "5/C07"),
 }
 
 NOT_YET = {
